@@ -46,7 +46,6 @@ INDENT = [
 ]
 CSSMATCH = [
     ('stylesheet.get_unmatched_part', 'the unmatched part starts after the last character of the abbreviation that was found in the snippet key, in order'),
-    ('stylesheet.score.calculate_score', 'the score walks both strings in order; a key that equals the abbreviation scores 1'),
     ('stylesheet.resolve_as_property', 'a matched property snippet takes the unmatched part as inline value and resolves keywords and numbers of the written values'),
     ('stylesheet.resolve_as_snippet', 'a raw snippet replaces the node value'),
     ('stylesheet.snippets.nest', 'a snippet whose key prefixes another is linked to it as a dependency'),
